@@ -520,6 +520,24 @@ func fingerprintDepth(f *ssa.Function, depth int) []string {
 	return out
 }
 
+// essentialOps is the set of fingerprint entries of f (helpers inlined) that
+// involve positions, the syntax tree or the module's own packages.
+func essentialOps(f *ssa.Function) []string {
+	seen := map[string]bool{}
+	var out []string
+	for _, e := range fingerprint(f) {
+		if !(strings.Contains(e, "go/token") || strings.Contains(e, "token.") || strings.Contains(e, "go/ast") || strings.Contains(e, "ast.") || strings.Contains(e, an.Module)) {
+			continue
+		}
+		if !seen[e] {
+			seen[e] = true
+			out = append(out, e)
+		}
+	}
+	sort.Strings(out)
+	return out
+}
+
 func operandKind(v ssa.Value) string {
 	if c, ok := v.(*ssa.Const); ok {
 		if c.Value == nil {
@@ -645,8 +663,10 @@ func c12Siblings(r *an.Run, m *runModel) {
 	case 1:
 		r.Pass("cleanupFilePos-siblings", cleanups[0].Pos(), "CLI and library share one clean-up function (%s)", short(cleanups[0]))
 	case 2:
-		fa, fb := fingerprint(cleanups[0]), fingerprint(cleanups[1])
-		r.Check(strings.Join(fa, "\n") == strings.Join(fb, "\n"), "cleanupFilePos-siblings", cleanups[1].Pos(), "%s and %s perform the same operations (%d vs %d fingerprint entries)%s", short(cleanups[0]), short(cleanups[1]), len(fa), len(fb), firstDiff(fa, fb))
+		// what the two copies do to positions, comments and the changelog — as a set: how a copy iterates,
+		// sorts, clamps an index (an if, or the builtin max) or splits its work into passes is its own business
+		fa, fb := essentialOps(cleanups[0]), essentialOps(cleanups[1])
+		r.Check(strings.Join(fa, "\n") == strings.Join(fb, "\n"), "cleanupFilePos-siblings", cleanups[1].Pos(), "%s and %s perform the same operations on positions, comments and the changelog (%d vs %d distinct operations)%s", short(cleanups[0]), short(cleanups[1]), len(fa), len(fb), firstDiff(fa, fb))
 	default:
 		r.Undecided("cleanupFilePos-siblings", api.Pos(), "expected one shared or two sibling clean-up functions reaching token.File.MergeLine, found %d", len(cleanups))
 	}
